@@ -14,7 +14,9 @@ import (
 	"testing"
 	"time"
 
+	"github.com/paulsonkoly/chess-3/board"
 	"github.com/paulsonkoly/chess-3/chess"
+	"github.com/paulsonkoly/chess-3/move"
 	"github.com/paulsonkoly/chess-3/search"
 	"github.com/paulsonkoly/chess-3/uci"
 
@@ -68,6 +70,88 @@ func (l *raceLog) bestmoves() int {
 		}
 	}
 	return n
+}
+
+// instantSearch is a stub search that is over as soon as it is asked: the end
+// of the search, the start of the driver's interrupt goroutine and whatever
+// the GUI wrote behind the go all fall together.
+type instantSearch struct{}
+
+func (instantSearch) Clear()       {}
+func (instantSearch) ResizeTT(int) {}
+func (instantSearch) Go(*board.Board, ...search.Option) (chess.Score, move.Move, move.Move) {
+	return 0, move.From(chess.E2) | move.To(chess.E4), 0
+}
+
+type lockedBuf struct {
+	mu sync.Mutex
+	sb strings.Builder
+}
+
+func (l *lockedBuf) Write(p []byte) (int, error) {
+	l.mu.Lock()
+	defer l.mu.Unlock()
+	return l.sb.Write(p)
+}
+
+// instantBurst runs a handful of one-search sessions against the real driver
+// with the instant stub: the whole script is readable at once, it holds
+// exactly one go (a GUI does not send a second one before the bestmove) with
+// ponderhit / isready / stop written behind it, then the input ends. Whatever
+// goroutine of the driver picks those lines up, the go is answered once, every
+// isready is answered, and Run returns. A panic of the driver ends the
+// process and is reported by the parent.
+func instantBurst(rng *rand.Rand, stats map[string]int64) (vs []Violation, conclusive bool) {
+	conclusive = true
+	for n := 8 + rng.IntN(16); n > 0; n-- {
+		var sb strings.Builder
+		ponderOn := rng.IntN(3) != 0
+		if ponderOn {
+			sb.WriteString("setoption name Ponder value true\n")
+		}
+		isready := 0
+		for k := rng.IntN(3); k > 0; k-- {
+			sb.WriteString("isready\n")
+			isready++
+		}
+		sb.WriteString(pick(rng, []string{"go ponder\n", "go ponder\n", "go ponder wtime 1000 btime 1000\n", "go depth 1\n", "go infinite\n"}))
+		for k := rng.IntN(4); k > 0; k-- {
+			l := pick(rng, []string{"ponderhit", "ponderhit", "isready", "stop"})
+			if l == "isready" {
+				isready++
+			}
+			sb.WriteString(l + "\n")
+		}
+		out := &lockedBuf{}
+		d := uci.NewDriver(uci.WithInput(strings.NewReader(sb.String())), uci.WithOutput(out), uci.WithError(io.Discard), uci.WithSearch(instantSearch{}))
+		done := make(chan struct{})
+		go func() { defer close(done); d.Run() }()
+		select {
+		case <-done:
+		case <-time.After(20 * time.Second):
+			return vs, false
+		}
+		stats["race_instant_sessions"]++
+		out.mu.Lock()
+		text := out.sb.String()
+		out.mu.Unlock()
+		bm, ro := 0, 0
+		for _, l := range strings.Split(text, "\n") {
+			switch {
+			case strings.HasPrefix(l, "bestmove"):
+				bm++
+			case l == "readyok":
+				ro++
+			}
+		}
+		if bm != 1 {
+			vs = append(vs, Violation{Property: "C13", Kind: "bestmove-count", Detail: fmt.Sprintf("[free-running leg, instant stub search] %d bestmove lines for one go; script %q, output %q", bm, sb.String(), text)})
+		}
+		if ro != isready {
+			vs = append(vs, Violation{Property: "C13", Kind: "readyok-count", Detail: fmt.Sprintf("[free-running leg, instant stub search] %d readyok lines for %d isready; script %q, output %q", ro, isready, sb.String(), text)})
+		}
+	}
+	return vs, true
 }
 
 // raceSession runs one free-running session; returns violations and whether
@@ -125,7 +209,32 @@ func raceSession(rng *rand.Rand, stats map[string]int64) (vs []Violation, conclu
 	turns := 2 + rng.IntN(5)
 	game := genRoot(rng, "").Game()
 	quitMid := false
-	for t := 0; t < turns && !quitMid; t++ {
+	if ponderOn && rng.IntN(2) == 0 {
+		// a burst of ponder searches that are over at once (finished games, or
+		// depth 1), each with its ponderhit already written behind the go: the
+		// end of the search, the start of the interrupt goroutine and the
+		// ponderhit all fall together (wave 12)
+		for n := 3 + rng.IntN(8); n > 0 && conclusive; n-- {
+			fen := pick(rng, []string{
+				"R6k/6pp/8/8/8/8/8/K7 b - - 0 1",
+				"rnb1kbnr/pppp1ppp/8/4p3/6Pq/5P2/PPPPP2P/RNBQKBNR w KQkq - 1 3",
+				"7k/5Q2/6K1/8/8/8/8/8 b - - 0 1",
+				game.Start.FEN(),
+			})
+			send("position fen " + fen)
+			goLine := "go ponder depth 1"
+			log.add("IN", goLine)
+			log.add("IN", "ponderhit")
+			io.WriteString(inW, goLine+"\nponderhit\n")
+			searches++
+			stats["race_searches"]++
+			stats["fault_ponderhit_at_search_end"]++
+			if !waitBest(searches) {
+				conclusive = false
+			}
+		}
+	}
+	for t := 0; t < turns && !quitMid && conclusive; t++ {
 		if rng.IntN(4) == 0 {
 			game = genRoot(rng, "").Game()
 			if rng.IntN(3) == 0 {
@@ -361,6 +470,13 @@ func TestRaceLeg(t *testing.T) {
 		sum.Searches += n
 		if !ok {
 			sum.Inconclusive++
+		}
+		if i%2 == 0 {
+			vb, okb := instantBurst(newRng(mixSeed(job.Seed, "C13-race-instant", uint64(i))), sum.Stats)
+			vs = append(vs, vb...)
+			if !okb {
+				sum.Inconclusive++
+			}
 		}
 		for _, v := range vs {
 			v.Detail += fmt.Sprintf(" (race-leg seed=%d session=%d)", job.Seed, i)
